@@ -225,3 +225,29 @@ package store
 //@   requires index_well_formed: segsWF(s.dataSet) && contiguous(s.dataSet) && rdbAnchored(s.dataSet) && nonNegative(s.dataSet)
 //@   modifies heap, dsMuxHeld
 //@   set dsMuxHeld = 1 at call Lock optional
+
+// ---- the snapshot reader never waits for bytes nobody will write (C04) -------------------------
+// A snapshot file shorter than its announced size is waited for only while its writer may still
+// append to it (the reader opened the .tmp file and the final name does not exist yet). A
+// finalized file that is short is damaged: the reader reports an incomplete snapshot.
+//   stillWritten  1 after a check found the file still being written, consumed by the next wait
+//@ func time.Sleep(d)
+//@   trusted library contract
+
+//@ func RdbReader.read(self, buf) (n, err)
+//@   trusted abstract file read
+//@   modifies heap
+
+//@ func io.Writer.Write(self, p) (n, err)
+//@   trusted abstract pipe
+
+//@ func RdbReader.pump
+//@   arith int
+//@   properties C04
+//@   replay syncer_shortCacheFile@syncer
+//@   ghost var stillWritten mathint = 0
+//@   requires nonnil: r != nil
+//@   modifies heap, stillWritten
+//@   set stillWritten = ite(result, 0, 1) after call finalized
+//@   assert at call Sleep: a_short_snapshot_is_waited_for_only_while_its_writer_may_still_append: stillWritten == 1
+//@   set stillWritten = 0 after call Sleep
